@@ -52,6 +52,15 @@ def loopFD {m n : Nat} (minv : Vec K n → Vec K n) (pinv : Vec K m → Vec K m)
   let udot := minv (vsub f (tmulVec G lam))
   ⟨udot0, rhs, lam, udot⟩
 
+/-! the four stages of `loopFD` as separate definitions (`loopFD_stages` in the proofs file: `loopFD` *is* their
+composition, by `rfl`).  The driver evaluates them one at a time so that every intermediate vector is materialised
+once (function-valued vectors are otherwise re-evaluated on each component access: O(m²n⁵) per record). -/
+def stageUdot0 {n : Nat} (minv : Vec K n → Vec K n) (f : Vec K n) : Vec K n := minv f
+def stageRhs {m n : Nat} (G : Mat K m n) (udot0 : Vec K n) (b : Vec K m) : Vec K m := vsub (mulVec G udot0) b
+def stageLam {m : Nat} (pinv : Vec K m → Vec K m) (rhs : Vec K m) : Vec K m := pinv rhs
+def stageUdot {m n : Nat} (minv : Vec K n → Vec K n) (G : Mat K m n) (f : Vec K n) (lam : Vec K m) : Vec K n :=
+  minv (vsub f (tmulVec G lam))
+
 /-- the matrix the multipliers are solved with, as an operator: `y ↦ G M⁻¹ ~G y` (`calcGMInvGt`) -/
 def gMinvGt {m n : Nat} (minv : Vec K n → Vec K n) (G : Mat K m n) (y : Vec K m) : Vec K m :=
   mulVec G (minv (tmulVec G y))
